@@ -86,6 +86,15 @@ def load_known():
     return json.load(open(p)).get("entries", [])
 
 
+def _round(args):
+    """one further round of a property's suites on another seed (run in a worker process)"""
+    import importlib
+
+    pid, tier, sd = args
+    mod = importlib.import_module(f"harness.suites.{pid.lower()}")
+    return mod.run(tier, sd)
+
+
 def match_known(finding, known):
     for e in known:
         if e.get("kind") != "finding" or e.get("property") != finding.prop:
@@ -124,6 +133,30 @@ def run_check(pid, tier, seed):
         proof_failures.append(f"model driver failed: {e}")
     except Exception:
         infra_error = traceback.format_exc()
+
+    # thorough tier: further rounds of every suite on other seeds, in parallel processes
+    rounds = 1
+    if tier == "thorough" and infra_error is None and not proof_failures:
+        rounds = int(os.environ.get("VERIF_THOROUGH_ROUNDS", getattr(mod, "THOROUGH_ROUNDS", 16)))
+        if rounds > 1:
+            import concurrent.futures
+            import multiprocessing
+
+            extra_seeds = [seed + 7919 * k for k in range(1, rounds)]
+            try:
+                with concurrent.futures.ProcessPoolExecutor(max_workers=min(len(extra_seeds), max(1, (os.cpu_count() or 4) - 2)),
+                                                            mp_context=multiprocessing.get_context("fork")) as ex:
+                    results = list(ex.map(_round, [(pid, tier, sd) for sd in extra_seeds]))
+                for su2, fi2 in results:
+                    by = {s.name: s for s in suites}
+                    for s2 in su2:
+                        if s2.name in by:
+                            by[s2.name].merge(s2)
+                        else:
+                            suites.append(s2)
+                    findings = list(findings) + list(fi2)
+            except Exception:
+                infra_error = traceback.format_exc()
 
     if infra_error is not None:
         print(infra_error, file=sys.stderr)
